@@ -21,6 +21,8 @@ import (
 	"github.com/q191201771/lal/pkg/rtmp"
 )
 
+var errRelayPullStopped = errors.New("lal.logic: relay pull stopped while connecting")
+
 // StartPull 外部命令主动触发pull拉流
 func (group *Group) StartPull(info base.ApiCtrlStartRelayPullReq) (string, error) {
 	group.mutex.Lock()
@@ -64,6 +66,9 @@ type pullProxy struct {
 	lastHasOutTs int64
 
 	isSessionPulling bool // 是否正在pull，注意，这是一个内部状态，表示的是session的状态，而不是整体任务应该处于的状态
+	// pullingSessionUk 正在建连（还没有加入group）的pull session的unique key。
+	// stopPull 时会清空，使得一个已经被要求停止的、还在建连中的pull，建连成功后不再被加入group
+	pullingSessionUk string
 	rtmpSession      *rtmp.PullSession
 	rtspSession      *rtsp.PullSession
 }
@@ -189,7 +194,8 @@ func (group *Group) pullSessionUniqueKey() string {
 // @return 返回true，表示找到对应的session，并关闭
 func (group *Group) kickPull(sessionId string) bool {
 	if (group.pullProxy.rtmpSession != nil && group.pullProxy.rtmpSession.UniqueKey() == sessionId) ||
-		(group.pullProxy.rtspSession != nil && group.pullProxy.rtspSession.UniqueKey() == sessionId) {
+		(group.pullProxy.rtspSession != nil && group.pullProxy.rtspSession.UniqueKey() == sessionId) ||
+		(group.isPullSessionConnecting() && group.pullProxy.pullingSessionUk == sessionId) {
 		group.pullProxy.apiEnable = false
 		group.stopPull()
 		return true
@@ -247,6 +253,7 @@ func (group *Group) pullIfNeeded() (string, error) {
 
 		uk = rtspSession.UniqueKey()
 	}
+	group.pullProxy.pullingSessionUk = uk
 
 	go func(rtPullUrl string, rtIsPullByRtmp bool, rtRtmpSession *rtmp.PullSession, rtRtspSession *rtsp.PullSession) {
 		if rtIsPullByRtmp {
@@ -313,7 +320,24 @@ func (group *Group) stopPull() string {
 		group.pullProxy.rtspSession.Dispose()
 		return group.pullProxy.rtspSession.UniqueKey()
 	}
+	if group.isPullSessionConnecting() {
+		// 还在建连中的pull：session还不在group中，没法直接关闭。记录下来，等它建连成功想加入group时拒绝它
+		uk := group.pullProxy.pullingSessionUk
+		Log.Infof("[%s] stop pull session which is connecting. session=%s", group.UniqueKey, uk)
+		group.pullProxy.pullingSessionUk = ""
+		return uk
+	}
 	return ""
+}
+
+// isPullSessionConnecting 是否有一个pull session正在建连（已经发起，还没有加入group），并且没有被要求停止
+func (group *Group) isPullSessionConnecting() bool {
+	return group.pullProxy.isSessionPulling && !group.hasPullSession() && group.pullProxy.pullingSessionUk != ""
+}
+
+// isPullSessionWanted 建连成功的pull session是否还应该加入group。如果建连期间 stopPull 被调用过，则不应该加入
+func (group *Group) isPullSessionWanted(session base.IObject) bool {
+	return group.pullProxy.isSessionPulling && group.pullProxy.pullingSessionUk == session.UniqueKey()
 }
 
 func (group *Group) shouldStartPull() (bool, error) {
